@@ -166,6 +166,28 @@ Proof.
   rewrite sum_n_delta_l by exact Hp. reflexivity.
 Qed.
 
+(* ---- one truncation step of the rounding sweep, at tensor level: with an orthogonal prefix, replacing the last core by ANY other core
+   changes the tensor by exactly the Frobenius distance of the two cores (the interface is an isometry).  So the energy discarded by the
+   truncated SVD of the small matrix is the squared error of the full tensor - what makes the matrix-level budget of C02 a bound on
+   ||x - round(x)||. ---- *)
+Definition csub (a b : core3 R) : core3 R := mk3 (r0 a) (nn a) (r1 a) (fun p i q => e3 a p i q - e3 b p i q).
+Theorem last_core_error (pre : tt R) (c c' : core3 R) : linked 1 pre -> Forall left_orth pre -> r1 c = 1%nat -> r1 c' = 1%nat -> nn c' = nn c ->
+  sum_idx (shape (pre ++ [c])) (fun idx => (entry (pre ++ [c]) idx - entry (pre ++ [c']) idx) * rconj (entry (pre ++ [c]) idx - entry (pre ++ [c']) idx))
+  = sum_n (nn c) (fun i => sum_n (endrank 1 pre) (fun p => (e3 c p i 0%nat - e3 c' p i 0%nat) * rconj (e3 c p i 0%nat - e3 c' p i 0%nat))).
+Proof.
+  intros Hl Hall H1 H1' Hn.
+  pose proof (norm2_last_core pre (csub c c') Hl Hall) as HN. cbn [csub r1 nn e3] in HN. rewrite <- HN by exact H1. clear HN.
+  assert (Hs : shape (pre ++ [csub c c']) = shape (pre ++ [c])) by (unfold shape; rewrite !map_app; reflexivity).
+  rewrite Hs. apply sum_idx_ext. intros idx Hlen _.
+  assert (E : entry (pre ++ [csub c c']) idx = entry (pre ++ [c]) idx - entry (pre ++ [c']) idx).
+  { unfold shape in Hlen. rewrite map_length, app_length in Hlen. cbn [length] in Hlen.
+    destruct (exists_last (l := idx)) as [ip [i Ei]]; [intros ->; simpl in Hlen; lia|]. subst idx.
+    rewrite app_length in Hlen. cbn [length] in Hlen. assert (Hip : length ip = length pre) by lia.
+    rewrite !entry_snoc by (try assumption; cbn [csub r1]; assumption).
+    rewrite <- sum_n_sub. apply sum_n_ext. intros p _. cbn [csub e3]. ring. }
+  rewrite E. reflexivity.
+Qed.
+
 End OrthP.
 
 (* ---- the mirror image: trains read from the right (rl_orthogonal) ---- *)
